@@ -1,0 +1,245 @@
+//go:build verif
+
+// Contracts for the verification machinery in /verif (comment-only; never compiled into a binary).
+// Property C20: node SLO settings are layered default < cluster < first matching node override.
+
+package nodeslo
+
+//@ uses apis/configuration, apis/slo/v1alpha1, apis/extension, pkg/util, pkg/util/sloconfig
+
+// selHit(ps, lbls): the node selector ps parses and matches the label map lbls (k8s code, uninterpreted; lib/C20.spec).
+//@ spec func selHit(ps *metav1.LabelSelector, lbls map[string]string) bool = !spec_selErr(ps) && spec_selMatches(spec_selOf(ps), lbls)
+
+//@ func getResourceThresholdSpec [C20]
+//@   requires node != nil && cfg != nil
+//@   ensures #err: result1 == nil
+//@   ensures #first: forall k int :: 0 <= k && k < len(cfg.NodeStrategies) && selHit(cfg.NodeStrategies[k].NodeSelector, node.Labels) && (forall j int :: 0 <= j && j < k ==> !selHit(cfg.NodeStrategies[j].NodeSelector, node.Labels)) ==> result0 == spec_copyThr(cfg.NodeStrategies[k].ResourceThresholdStrategy)
+//@   ensures #cluster: (forall j int :: 0 <= j && j < len(cfg.NodeStrategies) ==> !selHit(cfg.NodeStrategies[j].NodeSelector, node.Labels)) ==> result0 == spec_copyThr(cfg.ClusterStrategy)
+//@   ensures #kept: cfg.ClusterStrategy == old(cfg.ClusterStrategy) && (forall j int :: 0 <= j && j < len(cfg.NodeStrategies) ==> cfg.NodeStrategies[j].ResourceThresholdStrategy == old(cfg.NodeStrategies[j].ResourceThresholdStrategy) && cfg.NodeStrategies[j].NodeSelector == old(cfg.NodeStrategies[j].NodeSelector))
+//@   loop 1 invariant 0 <= $i && $i <= len(cfg.NodeStrategies)
+//@   loop 1 invariant forall j int :: 0 <= j && j < $i ==> !selHit(cfg.NodeStrategies[j].NodeSelector, node.Labels)
+
+//@ func getResourceQOSSpec [C20]
+//@   requires node != nil && cfg != nil
+//@   ensures #err: result1 == nil
+//@   ensures #first: forall k int :: 0 <= k && k < len(cfg.NodeStrategies) && selHit(cfg.NodeStrategies[k].NodeSelector, node.Labels) && (forall j int :: 0 <= j && j < k ==> !selHit(cfg.NodeStrategies[j].NodeSelector, node.Labels)) ==> result0 == spec_copyQOS(cfg.NodeStrategies[k].ResourceQOSStrategy)
+//@   ensures #cluster: (forall j int :: 0 <= j && j < len(cfg.NodeStrategies) ==> !selHit(cfg.NodeStrategies[j].NodeSelector, node.Labels)) ==> result0 == spec_copyQOS(cfg.ClusterStrategy)
+//@   ensures #kept: cfg.ClusterStrategy == old(cfg.ClusterStrategy) && (forall j int :: 0 <= j && j < len(cfg.NodeStrategies) ==> cfg.NodeStrategies[j].ResourceQOSStrategy == old(cfg.NodeStrategies[j].ResourceQOSStrategy) && cfg.NodeStrategies[j].NodeSelector == old(cfg.NodeStrategies[j].NodeSelector))
+//@   loop 1 invariant 0 <= $i && $i <= len(cfg.NodeStrategies)
+//@   loop 1 invariant forall j int :: 0 <= j && j < $i ==> !selHit(cfg.NodeStrategies[j].NodeSelector, node.Labels)
+
+//@ func getCPUBurstConfigSpec [C20]
+//@   requires node != nil && cfg != nil
+//@   ensures #err: result1 == nil
+//@   ensures #first: forall k int :: 0 <= k && k < len(cfg.NodeStrategies) && selHit(cfg.NodeStrategies[k].NodeSelector, node.Labels) && (forall j int :: 0 <= j && j < k ==> !selHit(cfg.NodeStrategies[j].NodeSelector, node.Labels)) ==> result0 == spec_copyBurst(cfg.NodeStrategies[k].CPUBurstStrategy)
+//@   ensures #cluster: (forall j int :: 0 <= j && j < len(cfg.NodeStrategies) ==> !selHit(cfg.NodeStrategies[j].NodeSelector, node.Labels)) ==> result0 == spec_copyBurst(cfg.ClusterStrategy)
+//@   ensures #kept: cfg.ClusterStrategy == old(cfg.ClusterStrategy) && (forall j int :: 0 <= j && j < len(cfg.NodeStrategies) ==> cfg.NodeStrategies[j].CPUBurstStrategy == old(cfg.NodeStrategies[j].CPUBurstStrategy) && cfg.NodeStrategies[j].NodeSelector == old(cfg.NodeStrategies[j].NodeSelector))
+//@   loop 1 invariant 0 <= $i && $i <= len(cfg.NodeStrategies)
+//@   loop 1 invariant forall j int :: 0 <= j && j < $i ==> !selHit(cfg.NodeStrategies[j].NodeSelector, node.Labels)
+
+// getSystemConfigSpec: same selection; a matching entry without a strategy falls through to the cluster strategy; the node's
+// bandwidth annotation (apis/extension.GetNodeTotalBandwidth) overrides TotalNetworkBandwidth or yields (nil, err).
+//@ spec func sysPick(cfg *configuration.SystemCfg, k int) *slov1alpha1.SystemStrategy = cfg.NodeStrategies[k].SystemStrategy != nil ? spec_copySys(cfg.NodeStrategies[k].SystemStrategy) : spec_copySys(cfg.ClusterStrategy)
+//@ func getSystemConfigSpec [C20]
+//@   requires node != nil && cfg != nil
+//@   ensures #err: result1 != nil ==> result0 == nil
+//@   ensures #noanno: !has(node.Annotations, extension.AnnotationNodeBandwidth) ==> result1 == nil
+//@   ensures #first: forall k int :: result1 == nil && 0 <= k && k < len(cfg.NodeStrategies) && selHit(cfg.NodeStrategies[k].NodeSelector, node.Labels) && (forall j int :: 0 <= j && j < k ==> !selHit(cfg.NodeStrategies[j].NodeSelector, node.Labels)) ==> result0 == sysPick(cfg, k)
+//@   ensures #cluster: result1 == nil && (forall j int :: 0 <= j && j < len(cfg.NodeStrategies) ==> !selHit(cfg.NodeStrategies[j].NodeSelector, node.Labels)) ==> result0 == spec_copySys(cfg.ClusterStrategy)
+//@   ensures #kept: cfg.ClusterStrategy == old(cfg.ClusterStrategy) && (forall j int :: 0 <= j && j < len(cfg.NodeStrategies) ==> cfg.NodeStrategies[j].SystemStrategy == old(cfg.NodeStrategies[j].SystemStrategy) && cfg.NodeStrategies[j].NodeSelector == old(cfg.NodeStrategies[j].NodeSelector))
+//@   loop 1 invariant 0 <= $i && $i <= len(cfg.NodeStrategies)
+//@   loop 1 invariant forall j int :: 0 <= j && j < $i ==> !selHit(cfg.NodeStrategies[j].NodeSelector, node.Labels)
+//@   loop 1 invariant nodeSystemConfig == nil
+//@   ensures #bwkept: result1 == nil && !has(node.Annotations, extension.AnnotationNodeBandwidth) ==> result0.TotalNetworkBandwidth == old(result0.TotalNetworkBandwidth)
+
+// getHostApplicationConfig: the applications of the first matching node entry, else the cluster-wide ones, copied element by
+// element into a fresh slice (DeepCopyInto is inlined: scalar fields equal, CgroupPath copied into a new object).
+//@ spec func appEq(out []slov1alpha1.HostApplicationSpec, src []slov1alpha1.HostApplicationSpec, i int) bool = out[i].Name == src[i].Name && out[i].Priority == src[i].Priority && out[i].QoS == src[i].QoS && ((out[i].CgroupPath == nil) <==> (src[i].CgroupPath == nil)) && ((out[i].Strategy == nil) <==> (src[i].Strategy == nil)) && (src[i].CgroupPath != nil ==> out[i].CgroupPath != src[i].CgroupPath && out[i].CgroupPath.Base == src[i].CgroupPath.Base && out[i].CgroupPath.ParentDir == src[i].CgroupPath.ParentDir && out[i].CgroupPath.RelativePath == src[i].CgroupPath.RelativePath)
+//@ spec func appsCopied(out []slov1alpha1.HostApplicationSpec, src []slov1alpha1.HostApplicationSpec) bool = len(out) == len(src) && (forall i int :: 0 <= i && i < len(src) ==> appEq(out, src, i))
+//@ spec func cgKept() bool = forall q *slov1alpha1.CgroupPath :: allocated(q) ==> q.Base == old(q.Base) && q.ParentDir == old(q.ParentDir) && q.RelativePath == old(q.RelativePath)
+//@ func getHostApplicationConfig [C20]
+//@   requires node != nil && cfg != nil
+//@   option inline DeepCopyInto
+//@   ensures #err: result1 == nil
+//@   ensures #fresh: fresh(result0)
+//@   ensures #first: forall k int :: 0 <= k && k < len(cfg.NodeConfigs) && selHit(cfg.NodeConfigs[k].NodeSelector, node.Labels) && (forall j int :: 0 <= j && j < k ==> !selHit(cfg.NodeConfigs[j].NodeSelector, node.Labels)) ==> appsCopied(result0, cfg.NodeConfigs[k].Applications)
+//@   ensures #cluster: (forall j int :: 0 <= j && j < len(cfg.NodeConfigs) ==> !selHit(cfg.NodeConfigs[j].NodeSelector, node.Labels)) ==> appsCopied(result0, cfg.Applications)
+//@   ensures #kept: cgKept()
+//@   loop 1 invariant 0 <= $i && $i <= len(cfg.NodeConfigs)
+//@   loop 1 invariant forall j int :: 0 <= j && j < $i ==> !selHit(cfg.NodeConfigs[j].NodeSelector, node.Labels)
+//@   loop 2 invariant 0 <= $i && $i <= len(nodeCfg.Applications) && len(out) == len(nodeCfg.Applications) && fresh(out)
+//@   loop 2 invariant forall j int :: 0 <= j && j < $i ==> appEq(out, nodeCfg.Applications, j)
+//@   loop 2 invariant cgKept()
+//@   loop 3 invariant 0 <= $i && $i <= len(cfg.Applications) && len(out) == len(cfg.Applications) && fresh(out)
+//@   loop 3 invariant forall j int :: 0 <= j && j < $i ==> appEq(out, cfg.Applications, j)
+//@   loop 3 invariant cgKept()
+
+// ---- merging a ConfigMap section: default <- cluster <- node entry ----
+
+// getDefaultExtensionCfg deep-copies a package-level registry through reflection (third-party extensions, not part of C20).
+//@ func getDefaultExtensionCfg [C20]
+//@   ensures result != nil
+//@   modifies nothing
+//@   option trusted
+
+// DefaultSLOCfg: the built-in defaults of the five sections: a default cluster strategy and no node entries.
+//@ spec func qosEmpty(p *slov1alpha1.ResourceQOSStrategy) bool = p != nil && p.Policies == nil && p.LSRClass == nil && p.LSClass == nil && p.BEClass == nil && p.SystemClass == nil && p.CgroupRoot == nil
+//@ func DefaultSLOCfg [C20]
+//@   ensures #thr: result.ThresholdCfgMerged.ClusterStrategy == spec_defThr() && spec_defThr() != nil && len(result.ThresholdCfgMerged.NodeStrategies) == 0
+//@   ensures #qos: qosEmpty(result.ResourceQOSCfgMerged.ClusterStrategy) && fresh(result.ResourceQOSCfgMerged.ClusterStrategy) && len(result.ResourceQOSCfgMerged.NodeStrategies) == 0
+//@   ensures #burst: result.CPUBurstCfgMerged.ClusterStrategy == spec_defBurst() && spec_defBurst() != nil && len(result.CPUBurstCfgMerged.NodeStrategies) == 0
+//@   ensures #sys: result.SystemCfgMerged.ClusterStrategy == spec_defSys() && spec_defSys() != nil && len(result.SystemCfgMerged.NodeStrategies) == 0
+//@   ensures #host: len(result.HostAppCfgMerged.Applications) == 0 && len(result.HostAppCfgMerged.NodeConfigs) == 0
+//@   modifies nothing
+
+// calculate*CfgMerged. json.Unmarshal is modelled by lib/base.spec: arbitrary error, overwrites only the object it is given
+// (the escaping local mergedCfg). So the parsed section is an ARBITRARY value; the elements of its NodeStrategies slice are
+// read from the entry heap: thrPatch(ns, i) (= the entry value of ns[i].<strategy>) is "what the parser produced for node
+// entry i" before the merge loop overwrote the slot, thrSel(ns, i) its selector. The parsed CLUSTER strategy is overwritten
+// by the merge and has no name in the post-state: #cluster can only say "copy(default), or ov(copy(default), pc) for SOME
+// non-nil pc" (known weakness: a mutant that skips the cluster merge is not detected; the base argument of that merge is
+// pinned by a call-site assertion). #nodes is exact: node_i = ov(copy(cluster), patch_i), or copy(cluster) when entry i
+// has no strategy -- it depends on entry i and on the cluster strategy only (no flow between entries, none into cluster).
+// #errframe / modifies: nothing but elements of []Node*Strategy slices (the parsed one, in the model) is written.
+//@ spec func thrPatch(ns []configuration.NodeResourceThresholdStrategy, i int) *slov1alpha1.ResourceThresholdStrategy = old(ns[i].ResourceThresholdStrategy)
+//@ spec func thrSel(ns []configuration.NodeResourceThresholdStrategy, i int) *metav1.LabelSelector = old(ns[i].NodeSelector)
+//@ spec func thrNode(cluster *slov1alpha1.ResourceThresholdStrategy, patch *slov1alpha1.ResourceThresholdStrategy) *slov1alpha1.ResourceThresholdStrategy = patch != nil ? spec_ovThr(spec_copyThr(cluster), patch) : spec_copyThr(cluster)
+//@ func calculateResourceThresholdCfgMerged [C20]
+//@   requires configMap != nil
+//@   modifies allelems(oldCfg.NodeStrategies)
+//@   ensures #errframe: result1 != nil || !old(present) ==> (forall s []configuration.NodeResourceThresholdStrategy, j int :: s[j].ResourceThresholdStrategy == old(s[j].ResourceThresholdStrategy) && s[j].NodeSelector == old(s[j].NodeSelector))
+//@   let present = has(configMap.Data, configuration.ResourceThresholdConfigKey)
+//@   ensures #absent: !old(present) ==> result1 == nil && result0.ClusterStrategy == spec_defThr() && len(result0.NodeStrategies) == 0
+//@   ensures #keepold: result1 != nil ==> old(present) && result0.ClusterStrategy == oldCfg.ClusterStrategy && arr(result0.NodeStrategies) == arr(oldCfg.NodeStrategies) && off(result0.NodeStrategies) == off(oldCfg.NodeStrategies) && len(result0.NodeStrategies) == len(oldCfg.NodeStrategies)
+//@   ensures #cluster: old(present) && result1 == nil ==> result0.ClusterStrategy != nil && (result0.ClusterStrategy == spec_copyThr(spec_defThr()) || (exists pc *slov1alpha1.ResourceThresholdStrategy :: {spec_ovThr(spec_copyThr(spec_defThr()), pc)} pc != nil && result0.ClusterStrategy == spec_ovThr(spec_copyThr(spec_defThr()), pc)))
+//@   ensures #nodes: old(present) && result1 == nil ==> (forall i int :: 0 <= i && i < len(result0.NodeStrategies) ==> result0.NodeStrategies[i].ResourceThresholdStrategy == thrNode(result0.ClusterStrategy, thrPatch(result0.NodeStrategies, i)) && result0.NodeStrategies[i].ResourceThresholdStrategy != nil && result0.NodeStrategies[i].NodeSelector == thrSel(result0.NodeStrategies, i))
+//@   assert before call MergeCfg: typeis($arg0, *slov1alpha1.ResourceThresholdStrategy) && typeis($arg1, *slov1alpha1.ResourceThresholdStrategy) && payload($arg1, *slov1alpha1.ResourceThresholdStrategy) != nil
+//@   assert before call MergeCfg#1: payload($arg0, *slov1alpha1.ResourceThresholdStrategy) == spec_copyThr(spec_defThr())
+//@   loop 1 invariant 0 <= $i && clusterMerged != nil
+//@   loop 1 invariant forall j int :: 0 <= j && j < $i ==> $range[j].ResourceThresholdStrategy == thrNode(clusterMerged, thrPatch($range, j)) && $range[j].ResourceThresholdStrategy != nil
+//@   loop 1 invariant forall j int :: $i <= j && j < len($range) ==> $range[j].ResourceThresholdStrategy == thrPatch($range, j)
+//@   loop 1 invariant forall j int :: 0 <= j && j < len($range) ==> $range[j].NodeSelector == thrSel($range, j)
+
+//@ spec func burstPatch(ns []configuration.NodeCPUBurstCfg, i int) *slov1alpha1.CPUBurstStrategy = old(ns[i].CPUBurstStrategy)
+//@ spec func burstSel(ns []configuration.NodeCPUBurstCfg, i int) *metav1.LabelSelector = old(ns[i].NodeSelector)
+//@ spec func burstNode(cluster *slov1alpha1.CPUBurstStrategy, patch *slov1alpha1.CPUBurstStrategy) *slov1alpha1.CPUBurstStrategy = patch != nil ? spec_ovBurst(spec_copyBurst(cluster), patch) : spec_copyBurst(cluster)
+//@ func calculateCPUBurstCfgMerged [C20]
+//@   requires configMap != nil
+//@   modifies allelems(oldCfg.NodeStrategies)
+//@   ensures #errframe: result1 != nil || !old(present) ==> (forall s []configuration.NodeCPUBurstCfg, j int :: s[j].CPUBurstStrategy == old(s[j].CPUBurstStrategy) && s[j].NodeSelector == old(s[j].NodeSelector))
+//@   let present = has(configMap.Data, configuration.CPUBurstConfigKey)
+//@   ensures #absent: !old(present) ==> result1 == nil && result0.ClusterStrategy == spec_defBurst() && len(result0.NodeStrategies) == 0
+//@   ensures #keepold: result1 != nil ==> old(present) && result0.ClusterStrategy == oldCfg.ClusterStrategy && arr(result0.NodeStrategies) == arr(oldCfg.NodeStrategies) && off(result0.NodeStrategies) == off(oldCfg.NodeStrategies) && len(result0.NodeStrategies) == len(oldCfg.NodeStrategies)
+//@   ensures #cluster: old(present) && result1 == nil ==> result0.ClusterStrategy != nil && (result0.ClusterStrategy == spec_copyBurst(spec_defBurst()) || (exists pc *slov1alpha1.CPUBurstStrategy :: {spec_ovBurst(spec_copyBurst(spec_defBurst()), pc)} pc != nil && result0.ClusterStrategy == spec_ovBurst(spec_copyBurst(spec_defBurst()), pc)))
+//@   ensures #nodes: old(present) && result1 == nil ==> (forall i int :: 0 <= i && i < len(result0.NodeStrategies) ==> result0.NodeStrategies[i].CPUBurstStrategy == burstNode(result0.ClusterStrategy, burstPatch(result0.NodeStrategies, i)) && result0.NodeStrategies[i].CPUBurstStrategy != nil && result0.NodeStrategies[i].NodeSelector == burstSel(result0.NodeStrategies, i))
+//@   assert before call MergeCfg: typeis($arg0, *slov1alpha1.CPUBurstStrategy) && typeis($arg1, *slov1alpha1.CPUBurstStrategy) && payload($arg1, *slov1alpha1.CPUBurstStrategy) != nil
+//@   assert before call MergeCfg#1: payload($arg0, *slov1alpha1.CPUBurstStrategy) == spec_copyBurst(spec_defBurst())
+//@   loop 1 invariant 0 <= $i && clusterMerged != nil
+//@   loop 1 invariant forall j int :: 0 <= j && j < $i ==> $range[j].CPUBurstStrategy == burstNode(clusterMerged, burstPatch($range, j)) && $range[j].CPUBurstStrategy != nil
+//@   loop 1 invariant forall j int :: $i <= j && j < len($range) ==> $range[j].CPUBurstStrategy == burstPatch($range, j)
+//@   loop 1 invariant forall j int :: 0 <= j && j < len($range) ==> $range[j].NodeSelector == burstSel($range, j)
+
+//@ spec func sysPatch(ns []configuration.NodeSystemStrategy, i int) *slov1alpha1.SystemStrategy = old(ns[i].SystemStrategy)
+//@ spec func sysSel(ns []configuration.NodeSystemStrategy, i int) *metav1.LabelSelector = old(ns[i].NodeSelector)
+//@ spec func sysNode(cluster *slov1alpha1.SystemStrategy, patch *slov1alpha1.SystemStrategy) *slov1alpha1.SystemStrategy = patch != nil ? spec_ovSys(spec_copySys(cluster), patch) : spec_copySys(cluster)
+//@ func calculateSystemConfigMerged [C20]
+//@   requires configMap != nil
+//@   modifies allelems(oldCfg.NodeStrategies)
+//@   ensures #errframe: result1 != nil || !old(present) ==> (forall s []configuration.NodeSystemStrategy, j int :: s[j].SystemStrategy == old(s[j].SystemStrategy) && s[j].NodeSelector == old(s[j].NodeSelector))
+//@   let present = has(configMap.Data, configuration.SystemConfigKey)
+//@   ensures #absent: !old(present) ==> result1 == nil && result0.ClusterStrategy == spec_defSys() && len(result0.NodeStrategies) == 0
+//@   ensures #keepold: result1 != nil ==> old(present) && result0.ClusterStrategy == oldCfg.ClusterStrategy && arr(result0.NodeStrategies) == arr(oldCfg.NodeStrategies) && off(result0.NodeStrategies) == off(oldCfg.NodeStrategies) && len(result0.NodeStrategies) == len(oldCfg.NodeStrategies)
+//@   ensures #cluster: old(present) && result1 == nil ==> result0.ClusterStrategy != nil && (result0.ClusterStrategy == spec_copySys(spec_defSys()) || (exists pc *slov1alpha1.SystemStrategy :: {spec_ovSys(spec_copySys(spec_defSys()), pc)} pc != nil && result0.ClusterStrategy == spec_ovSys(spec_copySys(spec_defSys()), pc)))
+//@   ensures #nodes: old(present) && result1 == nil ==> (forall i int :: 0 <= i && i < len(result0.NodeStrategies) ==> result0.NodeStrategies[i].SystemStrategy == sysNode(result0.ClusterStrategy, sysPatch(result0.NodeStrategies, i)) && result0.NodeStrategies[i].SystemStrategy != nil && result0.NodeStrategies[i].NodeSelector == sysSel(result0.NodeStrategies, i))
+//@   assert before call MergeCfg: typeis($arg0, *slov1alpha1.SystemStrategy) && typeis($arg1, *slov1alpha1.SystemStrategy) && payload($arg1, *slov1alpha1.SystemStrategy) != nil
+//@   assert before call MergeCfg#1: payload($arg0, *slov1alpha1.SystemStrategy) == spec_copySys(spec_defSys())
+//@   loop 1 invariant 0 <= $i && clusterMerged != nil
+//@   loop 1 invariant forall j int :: 0 <= j && j < $i ==> $range[j].SystemStrategy == sysNode(clusterMerged, sysPatch($range, j)) && $range[j].SystemStrategy != nil
+//@   loop 1 invariant forall j int :: $i <= j && j < len($range) ==> $range[j].SystemStrategy == sysPatch($range, j)
+//@   loop 1 invariant forall j int :: 0 <= j && j < len($range) ==> $range[j].NodeSelector == sysSel($range, j)
+// Field-level layering of the one field whose overlay semantics is known exactly (see MergeCfg in pkg/util): a node entry
+// that leaves totalNetworkBandwidth unset (zero Quantity) must deliver the cluster-wide value. FAILS: real defect, see report.
+//@   ensures #F_bandwidth: old(present) && result1 == nil ==> (forall i int :: 0 <= i && i < len(result0.NodeStrategies) && (sysPatch(result0.NodeStrategies, i) == nil || sysPatch(result0.NodeStrategies, i).TotalNetworkBandwidth.IsZero()) ==> result0.NodeStrategies[i].SystemStrategy.TotalNetworkBandwidth == result0.ClusterStrategy.TotalNetworkBandwidth)
+//@   loop 1 invariant #F_bandwidth: forall j int :: 0 <= j && j < $i && (sysPatch($range, j) == nil || sysPatch($range, j).TotalNetworkBandwidth.IsZero()) ==> $range[j].SystemStrategy.TotalNetworkBandwidth == clusterMerged.TotalNetworkBandwidth
+
+
+// ResourceQOS: the built-in default of this section is a new EMPTY strategy object (qosEmpty), not a named constant.
+//@ spec func qosPatch(ns []configuration.NodeResourceQOSStrategy, i int) *slov1alpha1.ResourceQOSStrategy = old(ns[i].ResourceQOSStrategy)
+//@ spec func qosSel(ns []configuration.NodeResourceQOSStrategy, i int) *metav1.LabelSelector = old(ns[i].NodeSelector)
+//@ spec func qosNode(cluster *slov1alpha1.ResourceQOSStrategy, patch *slov1alpha1.ResourceQOSStrategy) *slov1alpha1.ResourceQOSStrategy = patch != nil ? spec_ovQOS(spec_copyQOS(cluster), patch) : spec_copyQOS(cluster)
+//@ func calculateResourceQOSCfgMerged [C20]
+//@   requires configMap != nil
+//@   modifies allelems(oldCfg.NodeStrategies)
+//@   ensures #errframe: result1 != nil || !old(present) ==> (forall s []configuration.NodeResourceQOSStrategy, j int :: s[j].ResourceQOSStrategy == old(s[j].ResourceQOSStrategy) && s[j].NodeSelector == old(s[j].NodeSelector))
+//@   let present = has(configMap.Data, configuration.ResourceQOSConfigKey)
+//@   ensures #absent: !old(present) ==> result1 == nil && qosEmpty(result0.ClusterStrategy) && fresh(result0.ClusterStrategy) && len(result0.NodeStrategies) == 0
+//@   ensures #keepold: result1 != nil ==> old(present) && result0.ClusterStrategy == oldCfg.ClusterStrategy && arr(result0.NodeStrategies) == arr(oldCfg.NodeStrategies) && off(result0.NodeStrategies) == off(oldCfg.NodeStrategies) && len(result0.NodeStrategies) == len(oldCfg.NodeStrategies)
+//@   ensures #cluster: old(present) && result1 == nil ==> result0.ClusterStrategy != nil && ((exists d *slov1alpha1.ResourceQOSStrategy :: {spec_copyQOS(d)} qosEmpty(d) && fresh(d) && result0.ClusterStrategy == spec_copyQOS(d)) || (exists d *slov1alpha1.ResourceQOSStrategy, pc *slov1alpha1.ResourceQOSStrategy :: {spec_ovQOS(spec_copyQOS(d), pc)} qosEmpty(d) && fresh(d) && pc != nil && result0.ClusterStrategy == spec_ovQOS(spec_copyQOS(d), pc)))
+//@   ensures #nodes: old(present) && result1 == nil ==> (forall i int :: 0 <= i && i < len(result0.NodeStrategies) ==> result0.NodeStrategies[i].ResourceQOSStrategy == qosNode(result0.ClusterStrategy, qosPatch(result0.NodeStrategies, i)) && result0.NodeStrategies[i].ResourceQOSStrategy != nil && result0.NodeStrategies[i].NodeSelector == qosSel(result0.NodeStrategies, i))
+//@   assert before call MergeCfg: typeis($arg0, *slov1alpha1.ResourceQOSStrategy) && typeis($arg1, *slov1alpha1.ResourceQOSStrategy) && payload($arg1, *slov1alpha1.ResourceQOSStrategy) != nil
+//@   assert before call MergeCfg#1: exists d *slov1alpha1.ResourceQOSStrategy :: {spec_copyQOS(d)} qosEmpty(d) && payload($arg0, *slov1alpha1.ResourceQOSStrategy) == spec_copyQOS(d)
+//@   loop 1 invariant 0 <= $i && clusterMerged != nil
+//@   loop 1 invariant forall j int :: 0 <= j && j < $i ==> $range[j].ResourceQOSStrategy == qosNode(clusterMerged, qosPatch($range, j)) && $range[j].ResourceQOSStrategy != nil
+//@   loop 1 invariant forall j int :: $i <= j && j < len($range) ==> $range[j].ResourceQOSStrategy == qosPatch($range, j)
+//@   loop 1 invariant forall j int :: 0 <= j && j < len($range) ==> $range[j].NodeSelector == qosSel($range, j)
+
+// Host applications have no layering: the section is taken as parsed; absent => empty; unparsable => previous value.
+//@ func calculateHostAppConfigMerged [C20]
+//@   requires configMap != nil
+//@   modifies nothing
+//@   let present = has(configMap.Data, configuration.HostApplicationConfigKey)
+//@   ensures #absent: !old(present) ==> result1 == nil && len(result0.Applications) == 0 && len(result0.NodeConfigs) == 0
+//@   ensures #keepold: result1 != nil ==> old(present) && arr(result0.Applications) == arr(oldCfg.Applications) && off(result0.Applications) == off(oldCfg.Applications) && len(result0.Applications) == len(oldCfg.Applications) && arr(result0.NodeConfigs) == arr(oldCfg.NodeConfigs) && off(result0.NodeConfigs) == off(oldCfg.NodeConfigs) && len(result0.NodeConfigs) == len(oldCfg.NodeConfigs)
+
+// ---- the cache: syncConfig keeps the old section when its merge failed ----
+
+//@ func (*SLOCfgHandlerForConfigMapEvent).updateCacheIfChanged [C20]
+//@   requires p != nil
+//@   ensures #set: result ==> p.cfgCache.sloCfg == newSLOCfg
+//@   ensures #keep: !result ==> p.cfgCache.sloCfg == old(p.cfgCache.sloCfg)
+//@   ensures #avail: p.cfgCache.available
+//@   modifies p.cfgCache.sloCfg, p.cfgCache.available
+
+// "kept" section: cluster strategy and every node entry (strategy, selector) are the generated deep copies of the old ones.
+//@ spec func thrKept(c *slov1alpha1.ResourceThresholdStrategy, ns []configuration.NodeResourceThresholdStrategy, oc *slov1alpha1.ResourceThresholdStrategy, ons []configuration.NodeResourceThresholdStrategy) bool = c == spec_copyThr(oc) && len(ns) == len(ons) && (forall j int :: 0 <= j && j < len(ons) ==> ns[j].ResourceThresholdStrategy == spec_copyThr(old(ons[j].ResourceThresholdStrategy)) && ns[j].NodeSelector == spec_copySel(old(ons[j].NodeSelector)))
+//@ spec func qosKept(c *slov1alpha1.ResourceQOSStrategy, ns []configuration.NodeResourceQOSStrategy, oc *slov1alpha1.ResourceQOSStrategy, ons []configuration.NodeResourceQOSStrategy) bool = c == spec_copyQOS(oc) && len(ns) == len(ons) && (forall j int :: 0 <= j && j < len(ons) ==> ns[j].ResourceQOSStrategy == spec_copyQOS(old(ons[j].ResourceQOSStrategy)) && ns[j].NodeSelector == spec_copySel(old(ons[j].NodeSelector)))
+//@ spec func burstKept(c *slov1alpha1.CPUBurstStrategy, ns []configuration.NodeCPUBurstCfg, oc *slov1alpha1.CPUBurstStrategy, ons []configuration.NodeCPUBurstCfg) bool = c == spec_copyBurst(oc) && len(ns) == len(ons) && (forall j int :: 0 <= j && j < len(ons) ==> ns[j].CPUBurstStrategy == spec_copyBurst(old(ons[j].CPUBurstStrategy)) && ns[j].NodeSelector == spec_copySel(old(ons[j].NodeSelector)))
+//@ spec func sysKept(c *slov1alpha1.SystemStrategy, ns []configuration.NodeSystemStrategy, oc *slov1alpha1.SystemStrategy, ons []configuration.NodeSystemStrategy) bool = c == spec_copySys(oc) && len(ns) == len(ons) && (forall j int :: 0 <= j && j < len(ons) ==> ns[j].SystemStrategy == spec_copySys(old(ons[j].SystemStrategy)) && ns[j].NodeSelector == spec_copySel(old(ons[j].NodeSelector)))
+
+// "merged" section: what calculate*CfgMerged ensures on success (#cluster and #nodes), as one predicate.
+//@ spec func thrMerged(c *slov1alpha1.ResourceThresholdStrategy, ns []configuration.NodeResourceThresholdStrategy) bool = c != nil && (c == spec_copyThr(spec_defThr()) || (exists pc *slov1alpha1.ResourceThresholdStrategy :: {spec_ovThr(spec_copyThr(spec_defThr()), pc)} pc != nil && c == spec_ovThr(spec_copyThr(spec_defThr()), pc))) && (forall i int :: 0 <= i && i < len(ns) ==> ns[i].ResourceThresholdStrategy == thrNode(c, thrPatch(ns, i)) && ns[i].ResourceThresholdStrategy != nil && ns[i].NodeSelector == thrSel(ns, i))
+//@ spec func burstMerged(c *slov1alpha1.CPUBurstStrategy, ns []configuration.NodeCPUBurstCfg) bool = c != nil && (c == spec_copyBurst(spec_defBurst()) || (exists pc *slov1alpha1.CPUBurstStrategy :: {spec_ovBurst(spec_copyBurst(spec_defBurst()), pc)} pc != nil && c == spec_ovBurst(spec_copyBurst(spec_defBurst()), pc))) && (forall i int :: 0 <= i && i < len(ns) ==> ns[i].CPUBurstStrategy == burstNode(c, burstPatch(ns, i)) && ns[i].CPUBurstStrategy != nil && ns[i].NodeSelector == burstSel(ns, i))
+//@ spec func sysMerged(c *slov1alpha1.SystemStrategy, ns []configuration.NodeSystemStrategy) bool = c != nil && (c == spec_copySys(spec_defSys()) || (exists pc *slov1alpha1.SystemStrategy :: {spec_ovSys(spec_copySys(spec_defSys()), pc)} pc != nil && c == spec_ovSys(spec_copySys(spec_defSys()), pc))) && (forall i int :: 0 <= i && i < len(ns) ==> ns[i].SystemStrategy == sysNode(c, sysPatch(ns, i)) && ns[i].SystemStrategy != nil && ns[i].NodeSelector == sysSel(ns, i))
+//@ spec func qosMerged(c *slov1alpha1.ResourceQOSStrategy, ns []configuration.NodeResourceQOSStrategy) bool = c != nil && ((exists d *slov1alpha1.ResourceQOSStrategy :: {spec_copyQOS(d)} qosEmpty(d) && c == spec_copyQOS(d)) || (exists d *slov1alpha1.ResourceQOSStrategy, pc *slov1alpha1.ResourceQOSStrategy :: {spec_ovQOS(spec_copyQOS(d), pc)} qosEmpty(d) && pc != nil && c == spec_ovQOS(spec_copyQOS(d), pc))) && (forall i int :: 0 <= i && i < len(ns) ==> ns[i].ResourceQOSStrategy == qosNode(c, qosPatch(ns, i)) && ns[i].ResourceQOSStrategy != nil && ns[i].NodeSelector == qosSel(ns, i))
+
+// (*SLOCfg).DeepCopy is hand-written on top of the generated DeepCopy methods (loops over the node entries, reflection for
+// the extension part). ASSUMED: a faithful element-wise copy of the five sections, no effect on existing objects.
+//@ func (*SLOCfg).DeepCopy [C20]
+//@   ensures result != nil
+//@   ensures thrKept(result.ThresholdCfgMerged.ClusterStrategy, result.ThresholdCfgMerged.NodeStrategies, in.ThresholdCfgMerged.ClusterStrategy, in.ThresholdCfgMerged.NodeStrategies)
+//@   ensures qosKept(result.ResourceQOSCfgMerged.ClusterStrategy, result.ResourceQOSCfgMerged.NodeStrategies, in.ResourceQOSCfgMerged.ClusterStrategy, in.ResourceQOSCfgMerged.NodeStrategies)
+//@   ensures burstKept(result.CPUBurstCfgMerged.ClusterStrategy, result.CPUBurstCfgMerged.NodeStrategies, in.CPUBurstCfgMerged.ClusterStrategy, in.CPUBurstCfgMerged.NodeStrategies)
+//@   ensures sysKept(result.SystemCfgMerged.ClusterStrategy, result.SystemCfgMerged.NodeStrategies, in.SystemCfgMerged.ClusterStrategy, in.SystemCfgMerged.NodeStrategies)
+//@   ensures appsCopied(result.HostAppCfgMerged.Applications, in.HostAppCfgMerged.Applications) && len(result.HostAppCfgMerged.NodeConfigs) == len(in.HostAppCfgMerged.NodeConfigs)
+//@   modifies nothing
+//@   option trusted
+
+// Third-party extension sections (plug-in point, outside C20). ASSUMED: extenders do not touch the five built-in sections.
+//@ func calculateExtensionsCfgMerged [C20]
+//@   modifies nothing
+//@   option trusted
+
+// syncConfig. result == false: the cache is untouched (the new value was reflect.DeepEqual to it). result == true: every
+// section of the cache is, independently of the others, the defaults (ConfigMap deleted / key absent), or the merged value
+// (key present and parsed), or the copy of the PREVIOUS cached section (key present, not parsable): keep-old-on-error.
+//@ func (*SLOCfgHandlerForConfigMapEvent).syncConfig [C20]
+//@   requires p != nil
+//@   let c = p.cfgCache.sloCfg
+//@   ensures #avail: p.cfgCache.available
+//@   ensures #unchanged: !result ==> p.cfgCache.sloCfg == old(p.cfgCache.sloCfg)
+//@   ensures #deleted: result && configMap == nil ==> c.ThresholdCfgMerged.ClusterStrategy == spec_defThr() && len(c.ThresholdCfgMerged.NodeStrategies) == 0 && qosEmpty(c.ResourceQOSCfgMerged.ClusterStrategy) && len(c.ResourceQOSCfgMerged.NodeStrategies) == 0 && c.CPUBurstCfgMerged.ClusterStrategy == spec_defBurst() && len(c.CPUBurstCfgMerged.NodeStrategies) == 0 && c.SystemCfgMerged.ClusterStrategy == spec_defSys() && len(c.SystemCfgMerged.NodeStrategies) == 0 && len(c.HostAppCfgMerged.Applications) == 0 && len(c.HostAppCfgMerged.NodeConfigs) == 0
+//@   ensures #thr: result && configMap != nil ==> (has(configMap.Data, configuration.ResourceThresholdConfigKey) ? (thrMerged(c.ThresholdCfgMerged.ClusterStrategy, c.ThresholdCfgMerged.NodeStrategies) || thrKept(c.ThresholdCfgMerged.ClusterStrategy, c.ThresholdCfgMerged.NodeStrategies, old(c.ThresholdCfgMerged.ClusterStrategy), old(c.ThresholdCfgMerged.NodeStrategies))) : (c.ThresholdCfgMerged.ClusterStrategy == spec_defThr() && len(c.ThresholdCfgMerged.NodeStrategies) == 0))
+//@   ensures #qos: result && configMap != nil ==> (has(configMap.Data, configuration.ResourceQOSConfigKey) ? (qosMerged(c.ResourceQOSCfgMerged.ClusterStrategy, c.ResourceQOSCfgMerged.NodeStrategies) || qosKept(c.ResourceQOSCfgMerged.ClusterStrategy, c.ResourceQOSCfgMerged.NodeStrategies, old(c.ResourceQOSCfgMerged.ClusterStrategy), old(c.ResourceQOSCfgMerged.NodeStrategies))) : (qosEmpty(c.ResourceQOSCfgMerged.ClusterStrategy) && len(c.ResourceQOSCfgMerged.NodeStrategies) == 0))
+//@   ensures #burst: result && configMap != nil ==> (has(configMap.Data, configuration.CPUBurstConfigKey) ? (burstMerged(c.CPUBurstCfgMerged.ClusterStrategy, c.CPUBurstCfgMerged.NodeStrategies) || burstKept(c.CPUBurstCfgMerged.ClusterStrategy, c.CPUBurstCfgMerged.NodeStrategies, old(c.CPUBurstCfgMerged.ClusterStrategy), old(c.CPUBurstCfgMerged.NodeStrategies))) : (c.CPUBurstCfgMerged.ClusterStrategy == spec_defBurst() && len(c.CPUBurstCfgMerged.NodeStrategies) == 0))
+//@   ensures #sys: result && configMap != nil ==> (has(configMap.Data, configuration.SystemConfigKey) ? (sysMerged(c.SystemCfgMerged.ClusterStrategy, c.SystemCfgMerged.NodeStrategies) || sysKept(c.SystemCfgMerged.ClusterStrategy, c.SystemCfgMerged.NodeStrategies, old(c.SystemCfgMerged.ClusterStrategy), old(c.SystemCfgMerged.NodeStrategies))) : (c.SystemCfgMerged.ClusterStrategy == spec_defSys() && len(c.SystemCfgMerged.NodeStrategies) == 0))
+//@   ensures #host: result && configMap != nil && !has(configMap.Data, configuration.HostApplicationConfigKey) ==> len(c.HostAppCfgMerged.Applications) == 0 && len(c.HostAppCfgMerged.NodeConfigs) == 0
